@@ -4,6 +4,7 @@
    compartment-count vector, all positive parameters and every dt > 0. *)
 From Coq Require Import Reals List.
 From JV Require Import Prim TreeSolve TreeSolveFacts TreeAnalysis Cable GCellUtils CableFacts CableConservation.
+From JV Require Import HinesArr HinesCheck HinesArrFacts HinesIdx AsmStruct AssembleM AsmIdx AssembleGraph GraphMax GraphRest.
 Import ListNotations.
 Local Open Scope R_scope.
 
@@ -74,3 +75,45 @@ Example C02_nonvacuous :
   let c := mkcomp R 1 10 5000 1 (-70) (1/10) (-7) in
   passive_le (-70) c /\ passive_ge (-70) c.
 Proof. exact c02_example. Qed.
+
+(* ---- the same two statements at the ARRAY level, i.e. about the model of solver_voltage.py that is compared
+   with the running code (Model/HinesArr.v), for EVERY cell (sorted parent vector, counts >= 1), all positive
+   conductances on the code's edge table, all non-negative membrane conductances vt and every dt > 0 ---- *)
+
+(* no overshoot: if every previous voltage lies in [lo, hi] and every membrane term pulls into [lo, hi]
+   (vt lo <= ct <= vt hi, e.g. ct = vt * e with lo <= e <= hi), every new compartment voltage lies in [lo, hi] *)
+Theorem C02_array_level_no_overshoot : forall (ps ns : list nat) (es : list (edge R)) (v vt ct : nat -> R) (dt lo hi : R),
+  (1 <= length ps)%nat -> (forall b, (1 <= b)%nat -> (b < length ps)%nat -> (nth b ps 0 < b)%nat) ->
+  (forall b, (b < length ps)%nat -> (1 <= nth b ns 0)%nat) ->
+  map strip es = triples_of ps ns ->
+  0 < dt -> (forall e, In e es -> 0 < e_g R e) -> (forall i, (i < total ps ns)%nat -> 0 <= vt i) ->
+  (forall c, (c < total ps ns)%nat -> lo <= v c <= hi /\ vt c * lo <= ct c <= vt c * hi) ->
+  let ly := layout_of ps ns in
+  let s0 := assemble R Rplus Rminus Rmult 0 1 (nthD (mask_of ps ns)) (total ps ns) es v vt ct dt (group_of ps) (child_inds_of ps) (par_inds_of ps) in
+  let out := sv (run R Rplus Rminus Rmult Rdiv 0 1 ly (ops_of_tree ps ns) s0) in
+  forall b k, (b < length ps)%nat -> (k < ncomp_of ns b)%nat -> lo <= out (cs_of ps ns b + k)%nat <= hi.
+Proof. exact cell_no_overshoot. Qed.
+
+(* a cell at rest stays at rest (uniform voltage, all membrane terms pulling to it) *)
+Theorem C02_array_level_rest_is_preserved : forall (ps ns : list nat),
+  (1 <= length ps)%nat -> (forall b, (1 <= b)%nat -> (b < length ps)%nat -> (nth b ps 0 < b)%nat) ->
+  (forall b, (b < length ps)%nat -> (1 <= nth b ns 0)%nat) ->
+  forall (es : list (edge R)), map strip es = triples_of ps ns ->
+  forall (v vt ct : nat -> R) (dt V : R),
+  0 < dt -> (forall e, In e es -> 0 < e_g R e) -> (forall i, (i < total ps ns)%nat -> 0 <= vt i) ->
+  (forall c, (c < total ps ns)%nat -> v c = V) -> (forall c, (c < total ps ns)%nat -> ct c = vt c * V) ->
+  let s0 := assemble R Rplus Rminus Rmult 0 1 (nthD (mask_of ps ns)) (total ps ns) es v vt ct dt (group_of ps) (child_inds_of ps) (par_inds_of ps) in
+  let out := sv (run R Rplus Rminus Rmult Rdiv 0 1 (layout_of ps ns) (ops_of_tree ps ns) s0) in
+  forall b k, (b < length ps)%nat -> (k < ncomp_of ns b)%nat -> out (cs_of ps ns b + k)%nat = V.
+Proof. exact cell_at_rest_stays_at_rest. Qed.
+
+(* the maximum principle of the graph system itself (any structure meeting the decidable conditions, e.g. a network) *)
+Theorem C02_graph_maximum_principle : forall (ly : layout) (tp : topo), wf ly tp ->
+  forall (mask : nat -> nat) (ncomp : nat) (es : list (edge R)) (v vt ct : nat -> R) (dt : R) (group child_inds par_inds : list nat),
+  graph_struct ly tp mask ncomp es group child_inds par_inds -> graph_struct_bp ly mask ncomp es group child_inds par_inds ->
+  forall (x y : nat -> R) (lo hi : R),
+  (1 <= ncomp)%nat -> 0 < dt -> (forall e, In e es -> 0 < e_g R e) -> (forall c, (c < ncomp)%nat -> 0 <= vt c) ->
+  graph_eq ly tp mask ncomp es v vt ct dt x y ->
+  (forall c, (c < ncomp)%nat -> lo <= v c <= hi /\ vt c * lo <= ct c <= vt c * hi) ->
+  forall c, (c < ncomp)%nat -> lo <= x (mask c) <= hi.
+Proof. exact graph_bounds. Qed.
